@@ -112,7 +112,17 @@ def hostile_value(f, rnd, pool):
     return v
 
 
+def deductive(ctx):
+    """engine D: ShellTask.cmdline appends every argument after one blank, through shlex.quote exactly when it is empty or
+    contains blank/tab/newline/quote/backslash, verbatim otherwise (for ALL strings; shlex's own laws are assumed)"""
+    from contracts import cmdline as CL
+    from pyvc.verify import verify, summarize
+
+    summarize(ctx, verify(ctx, CL.contract()))
+
+
 def run(ctx):
+    deductive(ctx)
     ctx.level = "other"
     ctx.explanation = (
         "bounded (engine B): for every generated task whose command can be built, shlex.split(task.cmdline) must equal the argv handed to the "
